@@ -78,7 +78,9 @@ def toz(x):
     if isinstance(x, (float, _np.floating)):
         x = float(x)
         if not math.isfinite(x):
-            raise EngineUnsupported(f"non-finite constant {x}")
+            # the real code produced NaN/inf on concrete values (e.g. 0.0/0.0 in NumPy scalars): over the reals this is an
+            # invalid operation -- reported like an exception raised by the code (obligation `no-exception`), never modelled
+            raise FloatingPointError(f"non-finite value {x} produced by the code under verification")
         fr = pi_multiple(x)
         if fr is not None:
             E.used_pi = True
